@@ -561,6 +561,8 @@ struct ConnReq {
     path: Vec<u8>,
     range: u128,
     ims: bool,
+    /// 0 none, 1 gzip, 2 br, 3 zstd (accept-encoding)
+    enc: u128,
 }
 
 struct WireReply {
@@ -611,6 +613,12 @@ impl ConnClient {
         }
         if r.ims {
             req.extend_from_slice(b"If-Modified-Since: Fri, 01 Jan 2100 00:00:00 GMT\r\n");
+        }
+        match r.enc {
+            0 => {}
+            1 => req.extend_from_slice(b"Accept-Encoding: gzip\r\n"),
+            2 => req.extend_from_slice(b"Accept-Encoding: br\r\n"),
+            _ => req.extend_from_slice(b"Accept-Encoding: zstd\r\n"),
         }
         if r.method >= 2 {
             req.extend_from_slice(b"Content-Length: 0\r\n");
@@ -680,6 +688,13 @@ impl ConnClient {
             buf.extend_from_slice(&tmp[..n]);
         }
         let body = buf[head_end..head_end + want].to_vec();
+        let body = match get(b"content-encoding") {
+            Some(enc) if has_body && !body.is_empty() => match crate::c00pipe::decode_body(Some(&enc[..]), &body) {
+                (b, true) => b,
+                (_, false) => b"<body does not decode with its content-encoding>".to_vec(),
+            },
+            _ => body,
+        };
         if close || buf.len() > head_end + want {
             // start the next request on a fresh connection
             self.stream = None;
@@ -694,7 +709,11 @@ impl ConnClient {
 /// output: Ok (L (L (N status) security-headers body-of-a-200/206-GET) ...)
 fn conn(x: &X) -> X {
     let l = match x.as_l() {
-        Some(l) if l.len() == 4 => l,
+        Some(l) if l.len() == 4 || l.len() == 5 => l,
+        _ => return X::bad(),
+    };
+    let cfg = match ExtCfg::parse(l.get(4)) {
+        Some(c) if c.base <= 1 => c,
         _ => return X::bad(),
     };
     let server = match l[1].as_b().map(utf8) {
@@ -703,16 +722,22 @@ fn conn(x: &X) -> X {
         None => return X::bad(),
     };
     let mut handlers = Vec::new();
+    let mut files: Vec<(String, Vec<u8>)> = Vec::new();
     for h in match l[2].as_l() { Some(h) => h, None => return X::bad() } {
         let h = match h.as_l() {
-            Some(h) if h.len() == 6 => h,
+            Some(h) if h.len() == 6 || h.len() == 7 => h,
             _ => return X::bad(),
         };
-        let (path, status, hs, cache, nonce, body) =
-            match (h[0].as_b(), h[1].as_n(), h[2].as_l(), h[3].as_n(), h[4].as_n(), h[5].as_b()) {
+        let (path, status, hs, cache, line, body) =
+            match (h[0].as_b(), h[1].as_n(), h[2].as_l(), h[3].as_n(), line_of(&h[4]), h[5].as_b()) {
                 (Some(p), Some(st), Some(hs), Some(c), Some(n), Some(b)) => (p, st, hs, c, n, b),
                 _ => return X::bad(),
             };
+        let fs = match h.get(6).map(X::as_n) {
+            None => false,
+            Some(Some(f)) => f == 1,
+            Some(None) => return X::bad(),
+        };
         let path = match utf8(path) {
             Some(p) => p.to_owned(),
             None => return ood(),
@@ -733,34 +758,65 @@ fn conn(x: &X) -> X {
                 _ => return X::bad(),
             }
         }
-        let mut data = Vec::new();
-        if nonce == 1 {
-            data.extend_from_slice(b"!> nonce\n");
-        }
+        let mut data = line;
         data.extend_from_slice(body);
-        handlers.push(ConnHandler { path, status: status as u16, headers, cache: cache == 1, body: Bytes::from(data) });
+        if fs {
+            // a file `public/<path>`: plain relative paths only
+            if !path.starts_with('/') || path.ends_with('/') || path.contains("..") || path.contains("//") || path.contains('\0') {
+                return ood();
+            }
+            files.push((path, data));
+        } else {
+            handlers.push(ConnHandler { path, status: status as u16, headers, cache: cache == 1, body: Bytes::from(data) });
+        }
     }
     let mut reqs = Vec::new();
     for r in match l[3].as_l() { Some(r) => r, None => return X::bad() } {
         match r.as_l() {
-            Some([m, p, rg, i]) => match (m.as_n(), p.as_b(), rg.as_n(), i.as_n()) {
+            Some([m, p, rg, i, rest @ ..]) if rest.len() <= 1 => match (m.as_n(), p.as_b(), rg.as_n(), i.as_n()) {
                 (Some(m), Some(p), Some(rg), Some(i)) => {
                     if !p.starts_with(b"/") || p.iter().any(|c| !c.is_ascii_graphic()) {
                         return ood();
                     }
-                    reqs.push(ConnReq { method: m, path: p.to_vec(), range: rg, ims: i == 1 })
+                    let enc = match rest.first().map(X::as_n) {
+                        None => 0,
+                        Some(Some(e)) => e,
+                        Some(None) => return X::bad(),
+                    };
+                    reqs.push(ConnReq { method: m, path: p.to_vec(), range: rg, ims: i == 1, enc })
                 }
                 _ => return X::bad(),
             },
             _ => return X::bad(),
         }
     }
+    // fixture directory (only when the case has files): unique per process and case
+    let dir = if files.is_empty() {
+        None
+    } else {
+        static N: AtomicUsize = AtomicUsize::new(0);
+        let d = std::path::PathBuf::from(format!(
+            "{}/.run/c14-{}-{}",
+            env!("CARGO_MANIFEST_DIR").trim_end_matches("/harness"),
+            std::process::id(),
+            N.fetch_add(1, Ordering::SeqCst)
+        ));
+        for (rel, data) in &files {
+            let full = d.join("public").join(rel.trim_start_matches('/'));
+            let ok = full.parent().map_or(false, |p| std::fs::create_dir_all(p).is_ok()) && std::fs::write(&full, data).is_ok();
+            if !ok {
+                let _ = std::fs::remove_dir_all(&d);
+                return X::L(vec![X::N(93), X::b("fixture directory")]);
+            }
+        }
+        Some(d)
+    };
     let built = crate::guarded(|| {
         let csp = match csp_set(&l[0]) {
             Some(c) => c,
             None => return X::bad(),
         };
-        let mut ext = extensions_for(csp, &server);
+        let mut ext = extensions_cfg(csp, &server, cfg);
         for h in handlers {
             let path = h.path.clone();
             let h = Arc::new(h);
@@ -781,13 +837,22 @@ fn conn(x: &X) -> X {
             );
         }
         let mut opts = host::Options::default();
-        opts.disable_fs();
-        let mut host = Host::unsecure("localhost", "/nonexistent", ext, opts);
+        let host_path = match &dir {
+            Some(d) => d.to_string_lossy().into_owned(),
+            None => {
+                opts.disable_fs();
+                "/nonexistent".to_owned()
+            }
+        };
+        let mut host = Host::unsecure("localhost", host_path, ext, opts);
         host.limiter.disable();
         CONN_COLL.with(|c| *c.borrow_mut() = Some(HostCollection::builder().insert(host).build()));
         X::N(0)
     });
     if built != X::N(0) {
+        if let Some(d) = &dir {
+            let _ = std::fs::remove_dir_all(d);
+        }
         return built;
     }
     let coll = CONN_COLL.with(|c| c.borrow_mut().take().unwrap());
@@ -820,6 +885,9 @@ fn conn(x: &X) -> X {
         }
         Ok(out)
     });
+    if let Some(d) = &dir {
+        let _ = std::fs::remove_dir_all(d);
+    }
     match out {
         Ok(v) => X::ok(X::L(v)),
         Err(e) => e,
